@@ -75,3 +75,5 @@ SPEC = dict(
 SPEC["streams"] = [dict(imports="From Ship Require Import Base HubModel HubStreams.", case_type="c10_case", check_fn="check_hub_C17",
                         drivers=[dict(bin="hubunit", args=["-prop", "C10"], n_quick=600, n_thorough=20000, timeout=2400)],
                         codes={130: "visible_services_list_differs_from_reported_entries"})]
+
+SPEC["manifest"]["text"] += ' The report receiver keeps its own copy of what it is handed and then overwrites the entries it got (as the hub rewrites address lists in place): nothing of that may reach what the manager knows.'
